@@ -107,6 +107,9 @@ cvar = z3.Function('cvar', Int, Int, Int, Int)
 gadj = z3.Function('gadj', Int, Int, Int, z3.BoolSort())    # simple graph g: u and v are adjacent (has_edge view)
 lnbrs = z3.Function('lnbrs', Int, Int, ISeq)       # left neighbours of right vertex v in the (abstract) bipartite graph g
 pvar = z3.Function('pvar', Int, Int, Int, Int)          # permutations group: the variable of the ordered pair (u, v)
+cnb = z3.Function('cnb', Int, Int, ISeq)            # simple graph g: the closed neighbourhood of v (v and its neighbours) as a sorted list
+nbj = z3.Function('nbj', Int, Int, Int)             # position of v's closed neighbourhood in the duplicate-free list of neighbourhoods
+nbv = z3.Function('nbv', Int, Int, Int)             # a vertex whose closed neighbourhood is the j-th listed one
 degsum = z3.Function('degsum', Int, Int, Int)             # bipartite graph g: number of edges at the left vertices 1..u (sum of their degrees)         # combinations group (pairs): the variable of the pair {u, v}, u < v
 mrow = z3.Function('mrow', Int, Int, Int, ISeq)        # (group, u, m): the variables p[u,1..m] of a unary mapping, in order
 mcol = z3.Function('mcol', Int, Int, Int, ISeq)        # (group, v, n): the variables p[1..n,v], in order
@@ -202,7 +205,7 @@ def cmp_op(op, lhs, rhs):
                  z3.If(op == S('<'), lhs < rhs, z3.If(op == S('>'), lhs > rhs, z3.BoolVal(False))))))
 
 
-FUNCS = dict(pvar=pvar, lnbrs=lnbrs, gadj=gadj, degsum=degsum, cvar=cvar, tlen=tlen, tcoef=tcoef, tlit=tlit, tunit=tunit, tnegc=tnegc, tset=tset, wsum=wsum, thaszero=thaszero,
+FUNCS = dict(cnb=cnb, nbj=nbj, nbv=nbv, pvar=pvar, lnbrs=lnbrs, gadj=gadj, degsum=degsum, cvar=cvar, tlen=tlen, tcoef=tcoef, tlit=tlit, tunit=tunit, tnegc=tnegc, tset=tset, wsum=wsum, thaszero=thaszero,
              tmaxabs=tmaxabs, tnonneg=tnonneg, tmpos=tmpos, tzpos=tzpos, mkcon=mkcon, olen=olen, osnoc=osnoc, otake=otake, holds=holds,
              osat=osat, oappc=oappc, omaxabs=omaxabs, ohaszero=ohaszero, onormal=onormal,
              ilen=ilen, iget=iget, inil=inil, isnoc=isnoc, iapp=iapp, ineg=ineg, haszero=haszero,
